@@ -96,26 +96,26 @@ Print Assumptions C01_scalar_of_mset_other.
 (* a pattern matches its own filled segments and yields the printed values of its variables *)
 Theorem C01_match_fill : forall fs req segs filled,
   all_ok (map (fill_seg fs req) segs) = Ok filled ->
-  lits_ok segs = true ->
   (forall v, In v (seg_vars segs) -> var_val fs req v <> [] /\ var_val fs req v <> [slash]) ->
   match_segs segs filled = Some (bindings fs req (seg_vars segs)).
 Proof. exact match_fill. Qed.
 Print Assumptions C01_match_fill.
 
-(* literals without '%' are fine *)
+(* a segment without '%' unescapes to itself *)
 Theorem C01_lit_no_pct : forall x, ~ In "%"%char x -> seg_unescape x = x.
 Proof. exact seg_unescape_no_pct. Qed.
 Print Assumptions C01_lit_no_pct.
 
 (* ---- the end-to-end theorems -------------------------------------------------------------------------- *)
 
-(* POST / PUT / PATCH: the handler sees exactly the request, the caller gets exactly the reply. *)
+(* POST / PUT / PATCH: the handler sees exactly the request, the caller gets exactly the reply.
+   Premises besides the empty defect list: the method belongs to the service, method names are distinct,
+   path-bound values print non-empty (the property's own premise), URL-capable fields are well typed. *)
 Theorem C01_body_verbs : forall sc fl sv md ct req resp w o,
   go_call sc fl sv md ct req resp = Ok (w, o) ->
   defects_C01 sc fl sv md ct req = [] ->
   verb_has_body (eff_verb (info_of fl sv md (in_fields sc md))) = true ->
   In md (sv_methods sv) -> NoDup (map md_name (sv_methods sv)) ->
-  template_ok (info_of fl sv md (in_fields sc md)) = true ->
   path_vals_nonempty (in_fields sc md) req (path_vars (info_of fl sv md (in_fields sc md))) = true ->
   req_typed (in_fields sc md) req ->
   o = Delivered req resp.
@@ -128,19 +128,35 @@ Theorem C01_bodiless_verbs : forall sc fl sv md ct req resp w o,
   defects_C01 sc fl sv md ct req = [] ->
   verb_has_body (eff_verb (info_of fl sv md (in_fields sc md))) = false ->
   In md (sv_methods sv) -> NoDup (map md_name (sv_methods sv)) ->
-  template_ok (info_of fl sv md (in_fields sc md)) = true ->
   path_vals_nonempty (in_fields sc md) req (path_vars (info_of fl sv md (in_fields sc md))) = true ->
   req_typed (in_fields sc md) req ->
   NoDup (map f_name (in_fields sc md)) ->
-  NoDup (map qname (query_fields (in_fields sc md))) ->
   (forall f, In f (in_fields sc md) ->
      In (f_name f) (path_vars (info_of fl sv md (in_fields sc md))) \/ f_query f <> None) ->
-  (forall f, In f (query_fields (in_fields sc md)) -> qrequired f = true ->
-     is_zero (scalar_of req f) = false) ->
   exists saw, o = Delivered saw resp /\
               forall f, In f (in_fields sc md) -> scalar_of saw f = scalar_of req f.
 Proof. exact go_call_nobody. Qed.
 Print Assumptions C01_bodiless_verbs.
+
+(* what an empty defect list gives beyond the original seven classes: the variables of the client's
+   template are exactly those of the method's own path *)
+Theorem C01_template_ok_of_defects : forall sc fl sv md ct req resp w o,
+  go_call sc fl sv md ct req resp = Ok (w, o) ->
+  defects_C01 sc fl sv md ct req = [] ->
+  template_ok (info_of fl sv md (in_fields sc md)) = true.
+Proof. exact template_ok_of_defects. Qed.
+Print Assumptions C01_template_ok_of_defects.
+
+Theorem C01_defects_side_conditions : forall sc fl sv md ct req,
+  defects_C01 sc fl sv md ct req = [] ->
+  (verb_has_body (eff_verb (info_of fl sv md (in_fields sc md))) = false ->
+     forall f, In f (query_fields (in_fields sc md)) -> qrequired f = true ->
+               is_zero (scalar_of req f) = false) /\
+  ~ In lbrace (ri_base (info_of fl sv md (in_fields sc md))) /\
+  (verb_has_body (eff_verb (info_of fl sv md (in_fields sc md))) = false ->
+     NoDup (map qname (query_fields (in_fields sc md)))).
+Proof. exact defects_nil_inv2. Qed.
+Print Assumptions C01_defects_side_conditions.
 
 (* the same with every side condition as one boolean, checkable by computation *)
 Theorem C01_body_verbs_b : forall sc fl sv md ct req resp w o,
@@ -161,39 +177,6 @@ Theorem C01_bodiless_verbs_b : forall sc fl sv md ct req resp w o,
               forall f, In f (in_fields sc md) -> scalar_of saw f = scalar_of req f.
 Proof. exact go_call_nobody_b. Qed.
 Print Assumptions C01_bodiless_verbs_b.
-
-(* the template condition in syntactic form: no '%' in the client's path template, no '{' in the
-   service base path *)
-Theorem C01_body_verbs_simple : forall sc fl sv md ct req resp w o,
-  go_call sc fl sv md ct req resp = Ok (w, o) ->
-  defects_C01 sc fl sv md ct req = [] ->
-  verb_has_body (eff_verb (info_of fl sv md (in_fields sc md))) = true ->
-  In md (sv_methods sv) -> NoDup (map md_name (sv_methods sv)) ->
-  simple_template (info_of fl sv md (in_fields sc md)) = true ->
-  path_vals_nonempty (in_fields sc md) req (path_vars (info_of fl sv md (in_fields sc md))) = true ->
-  req_typed (in_fields sc md) req ->
-  o = Delivered req resp.
-Proof. exact go_call_body_simple. Qed.
-Print Assumptions C01_body_verbs_simple.
-
-Theorem C01_bodiless_verbs_simple : forall sc fl sv md ct req resp w o,
-  go_call sc fl sv md ct req resp = Ok (w, o) ->
-  defects_C01 sc fl sv md ct req = [] ->
-  verb_has_body (eff_verb (info_of fl sv md (in_fields sc md))) = false ->
-  In md (sv_methods sv) -> NoDup (map md_name (sv_methods sv)) ->
-  simple_template (info_of fl sv md (in_fields sc md)) = true ->
-  path_vals_nonempty (in_fields sc md) req (path_vars (info_of fl sv md (in_fields sc md))) = true ->
-  req_typed (in_fields sc md) req ->
-  NoDup (map f_name (in_fields sc md)) ->
-  NoDup (map qname (query_fields (in_fields sc md))) ->
-  (forall f, In f (in_fields sc md) ->
-     In (f_name f) (path_vars (info_of fl sv md (in_fields sc md))) \/ f_query f <> None) ->
-  (forall f, In f (query_fields (in_fields sc md)) -> qrequired f = true ->
-     is_zero (scalar_of req f) = false) ->
-  exists saw, o = Delivered saw resp /\
-              forall f, In f (in_fields sc md) -> scalar_of saw f = scalar_of req f.
-Proof. exact go_call_nobody_simple. Qed.
-Print Assumptions C01_bodiless_verbs_simple.
 
 (* a template is read the same way by ExtractPathParams and by the segment-wise reading *)
 Theorem C01_extract_tsegs : forall p segs, tsegs p = Some segs -> extract_path_params p = seg_vars segs.
@@ -239,13 +222,12 @@ Definition get_req : mval :=
 
 Example C01_body_nonvacuous :
   wf_body sc1 fl1 sv1 put_md put_req = true /\
-  simple_template (info_of fl1 sv1 put_md (in_fields sc1 put_md)) = true /\
   defects_C01 sc1 fl1 sv1 put_md CtJSON put_req = [] /\
   In put_md (sv_methods sv1) /\
   exists w, go_call sc1 fl1 sv1 put_md CtJSON put_req resp1 = Ok (w, Delivered put_req resp1) /\
             w_path w = s "/api/items/a%20b%2Fc%25/sub/-5".
 Proof.
-  vm_compute. split; [reflexivity|]. split; [reflexivity|]. split; [reflexivity|].
+  vm_compute. split; [reflexivity|]. split; [reflexivity|].
   split; [left; reflexivity|]. eexists. split; reflexivity.
 Qed.
 
@@ -260,6 +242,18 @@ Proof.
   vm_compute. split; [reflexivity|]. split; [reflexivity|]. split; [right; left; reflexivity|].
   eexists. repeat split; reflexivity.
 Qed.
+
+(* a literal template segment holding a percent escape is routed: ServeMux unescapes literal pattern
+   segments at registration and compares them with the unescaped request segment *)
+Definition pct_md := mkmd (s "PutItem") (s "PutReq") (s "/a%41/{id}/sub/{n}") 3.
+Definition sv_pct := mksv (s "/api") [pct_md].
+Definition fl_pct := mkfl [put_msg] sv_pct.
+Example C01_escaped_literal_is_routed :
+  wf_body [fl_pct] fl_pct sv_pct pct_md put_req = true /\
+  defects_C01 [fl_pct] fl_pct sv_pct pct_md CtJSON put_req = [] /\
+  exists w, go_call [fl_pct] fl_pct sv_pct pct_md CtJSON put_req resp1 = Ok (w, Delivered put_req resp1) /\
+            w_path w = s "/api/a%41/a%20b%2Fc%25/sub/-5".
+Proof. vm_compute. split; [reflexivity|]. split; [reflexivity|]. eexists. split; reflexivity. Qed.
 
 (* ---- refutations: each known defect class on a concrete call ------------------------------------------------ *)
 
@@ -286,45 +280,57 @@ Example C01_refuted_slash_value :
   outcome_of (go_call sc1 fl1 sv1 put_md CtJSON put_req_slash resp1) = Some NotRouted.
 Proof. vm_compute. split; reflexivity. Qed.
 
-(* ---- the side conditions are needed: calls with an empty defect list that are not delivered intact ----------- *)
+(* a required query parameter holding the zero value is not sent, and the server rejects the call *)
+Definition get_req_zero : mval := [(s "id", FS (VStr (s "a")))].
+Example C01_refuted_required_query_zero :
+  defects_C01 sc1 fl1 sv1 get_md CtJSON get_req_zero = [C01RequiredQueryZeroElided] /\
+  outcome_of (go_call sc1 fl1 sv1 get_md CtJSON get_req_zero resp1) = Some (Rejected (s "q")).
+Proof. vm_compute. split; reflexivity. Qed.
 
-(* an empty string in a path variable: "//" in the path, redirected by the mux *)
+(* a variable in the service base path: the client replaces only the method path's variables, "{tenant}"
+   stays in the URL and net/url re-encodes the whole path — outside the model *)
+Definition get2_md := mkmd (s "GetItem") (s "GetReq2") (s "/items/{id}") 1.
+Definition get2_msg := mkmsg (s "GetReq2") [mkf (s "id") 1 KString None; mkf (s "tenant") 2 KString None].
+Definition sv_base := mksv (s "/t/{tenant}") [get2_md].
+Definition fl_base := mkfl [get2_msg] sv_base.
+Definition get2_req : mval := [(s "id", FS (VStr (s "a"))); (s "tenant", FS (VStr (s "acme")))].
+Example C01_base_path_variable_unmodelled :
+  defects_C01 [fl_base] fl_base sv_base get2_md CtJSON get2_req = [C01BasePathVariable] /\
+  go_call [fl_base] fl_base sv_base get2_md CtJSON get2_req resp1
+    = Unmodelled (s "client path needs net/url re-encoding").
+Proof. vm_compute. split; reflexivity. Qed.
+
+(* likewise a literal byte that net/url would re-encode (here a space) *)
+Definition sp_md := mkmd (s "PutItem") (s "PutReq") (s "/a b/{id}/sub/{n}") 3.
+Definition sv_sp := mksv (s "/api") [sp_md].
+Definition fl_sp := mkfl [put_msg] sv_sp.
+Example C01_literal_needing_reencoding_unmodelled :
+  go_call [fl_sp] fl_sp sv_sp sp_md CtJSON put_req resp1
+    = Unmodelled (s "client path needs net/url re-encoding").
+Proof. vm_compute. reflexivity. Qed.
+
+(* two query fields sharing a parameter name: both fields read one value *)
+Definition get3_msg := mkmsg (s "GetReq")
+  [mkf (s "id") 1 KString None;
+   mkf (s "a") 2 KInt32 (Some {| q_name := s "p"; q_required := false |});
+   mkf (s "b") 3 KInt32 (Some {| q_name := s "p"; q_required := false |})].
+Definition sv_dup := mksv (s "/api") [get_md].
+Definition fl_dup := mkfl [get3_msg] sv_dup.
+Definition get3_req : mval := [(s "id", FS (VStr (s "x"))); (s "a", FS (VInt 1)); (s "b", FS (VInt 2))].
+Example C01_refuted_duplicate_query_name :
+  defects_C01 [fl_dup] fl_dup sv_dup get_md CtJSON get3_req = [C01DuplicateQueryName] /\
+  outcome_of (go_call [fl_dup] fl_dup sv_dup get_md CtJSON get3_req resp1)
+    = Some (Delivered [(s "id", FS (VStr (s "x"))); (s "a", FS (VInt 1)); (s "b", FS (VInt 1))] resp1).
+Proof. vm_compute. split; reflexivity. Qed.
+
+(* ---- the property's own premise -------------------------------------------------------------------------------- *)
+
+(* an empty string in a path variable: "//" in the path, redirected by the mux; path-bound values are
+   assumed non-empty by the property, so this carries no defect tag *)
 Definition put_req_empty : mval := [(s "n", FS (VInt (-5)))].
 Example C01_needs_nonempty_path_value :
   defects_C01 sc1 fl1 sv1 put_md CtJSON put_req_empty = [] /\
   path_vals_nonempty (in_fields sc1 put_md) put_req_empty
      (path_vars (info_of fl1 sv1 put_md (in_fields sc1 put_md))) = false /\
   outcome_of (go_call sc1 fl1 sv1 put_md CtJSON put_req_empty resp1) = Some NotRouted.
-Proof. vm_compute. repeat split; reflexivity. Qed.
-
-(* a literal template segment holding a percent escape: the mux unescapes the request segment but
-   compares it with the literal as written *)
-Definition pct_md := mkmd (s "PutItem") (s "PutReq") (s "/a%41/{id}/sub/{n}") 3.
-Definition sv_pct := mksv (s "/api") [pct_md].
-Definition fl_pct := mkfl [put_msg] sv_pct.
-Example C01_needs_literal_without_escape :
-  defects_C01 [fl_pct] fl_pct sv_pct pct_md CtJSON put_req = [] /\
-  template_ok (info_of fl_pct sv_pct pct_md (in_fields [fl_pct] pct_md)) = false /\
-  outcome_of (go_call [fl_pct] fl_pct sv_pct pct_md CtJSON put_req resp1) = Some NotRouted.
-Proof. vm_compute. repeat split; reflexivity. Qed.
-
-(* a required query parameter holding the zero value is not sent, and the server rejects the call *)
-Definition get_req_zero : mval := [(s "id", FS (VStr (s "a")))].
-Example C01_needs_required_query_nonzero :
-  defects_C01 sc1 fl1 sv1 get_md CtJSON get_req_zero = [] /\
-  required_sentb (in_fields sc1 get_md) get_req_zero = false /\
-  outcome_of (go_call sc1 fl1 sv1 get_md CtJSON get_req_zero resp1) = Some (Rejected (s "q")).
-Proof. vm_compute. repeat split; reflexivity. Qed.
-
-(* a variable in the service base path is filled by the client and never bound by the server *)
-Definition get2_md := mkmd (s "GetItem") (s "GetReq2") (s "/items/{id}") 1.
-Definition get2_msg := mkmsg (s "GetReq2") [mkf (s "id") 1 KString None; mkf (s "tenant") 2 KString None].
-Definition sv_base := mksv (s "/t/{tenant}") [get2_md].
-Definition fl_base := mkfl [get2_msg] sv_base.
-Definition get2_req : mval := [(s "id", FS (VStr (s "a"))); (s "tenant", FS (VStr (s "acme")))].
-Example C01_needs_no_base_path_variable :
-  defects_C01 [fl_base] fl_base sv_base get2_md CtJSON get2_req = [] /\
-  template_ok (info_of fl_base sv_base get2_md (in_fields [fl_base] get2_md)) = false /\
-  outcome_of (go_call [fl_base] fl_base sv_base get2_md CtJSON get2_req resp1)
-    = Some (Delivered [(s "id", FS (VStr (s "a")))] resp1).
 Proof. vm_compute. repeat split; reflexivity. Qed.
